@@ -505,7 +505,7 @@ TERN = {  # name -> (self kind, operand-1 kind, operand-2 kind, operand-2 may be
 TERN_MODES = ["td_same"] * 8 + ["td_missing", "td_extra", "td_both", "td_empty"]
 
 
-def run_ternary_case(ctx, name, inplace):
+def run_ternary_case(ctx, name, inplace, container=None):
     run, rng = ctx.run, ctx.rng
     sk, k1, k2, scalar2 = TERN[name]
     ref = _tern_ref(name)
@@ -545,6 +545,9 @@ def run_ternary_case(ctx, name, inplace):
             "o1": modes[0], "o1_keys": [".".join(p) for p in dfs[0]], "o2": modes[1], "o2_keys": [".".join(p) for p in dfs[1]],
             "shapes": [list(o.shape) if isinstance(o, torch.Tensor) else None for o in ops], "locked": lock_s}
     site = "ternary_inplace" if inplace else "ternary"
+    if container is not None:
+        site = "ternary_containers"
+        case["container"] = container
     nontrivial = any(m.startswith("td_") and len(d) >= 2 and [p for p in d if p in s_leaves] != [p for p in s_dfs if p in lv]
                      for m, d, lv in zip(modes, dfs, leaves)) or "tensor" in modes
     run.case((site, name, tuple(modes), tuple(s_dfs), tuple(map(tuple, dfs)), tuple(batch), str(case["shapes"])), nontrivial=nontrivial)
@@ -585,6 +588,9 @@ def run_ternary_case(ctx, name, inplace):
         except Exception as e:  # noqa: BLE001
             model = ["ref-undefined", err_class(e)]
     # implementation
+    if container is not None:
+        self_td = wrap_container(container, self_td)
+        run.count(site + ".container", container)
     r = L.impl_call(lambda: getattr(self_td, name + ("_" if inplace else ""))(ops[0], ops[1], **tern_kw))
     if r[0] == "err":
         impl = ["err", r[1]]
@@ -866,7 +872,8 @@ def _red_values(x):
 def red_canon(res):
     """canonical form of a reduction result (tensordict): batch, names, leaves, nested batch sizes"""
     from tensordict import TensorDictBase
-    nested = sorted((".".join(k) if isinstance(k, tuple) else k, list(v.batch_size))
+    nested = sorted((".".join(k) if isinstance(k, tuple) else k, list(v.batch_size),
+                     [str(x) for x in (v.names if v._has_names() else [None] * v.batch_dims)])
                     for k, v in res.items(True, False) if isinstance(v, TensorDictBase))
     names = list(res.names) if res._has_names() else None
     return ["ok", ["bs"] + list(res.batch_size), ["names", names], L.canon_kv(leaf_dict(res)), ["nested"] + [list(x) for x in nested]]
@@ -921,7 +928,8 @@ def run_reduction_case(ctx, name, batch, names, spelling, keep):
                     vv = v.flatten(len(batch), -1) if v.ndim > len(batch) else v.unsqueeze(-1)
                     r = getattr(vv, name)(dim=-1)
                 out[p] = _red_values(r)
-            model = ["ok", ["bs"] + m_bs, ["names", m_names], L.canon_kv(out), ["nested", ["n", m_bs]]]
+            model = ["ok", ["bs"] + m_bs, ["names", m_names], L.canon_kv(out),
+                     ["nested", ["n", m_bs, [str(x) for x in (m_names if m_names is not None else [None] * len(m_bs))]]]]   # nested results carry the root's names
         except Exception as e:  # noqa: BLE001  torch rejects the call the model (and the code) makes on a leaf
             model = ["err", err_class(e)]
     # ---- implementation
@@ -934,7 +942,7 @@ def run_reduction_case(ctx, name, batch, names, spelling, keep):
         impl = red_canon(r[1])
         if not con and impl[2][1] is not None:
             pass
-    # nested names are not part of the comparison; nested batch sizes are
+    # nested batch sizes and nested dim names (= the root's) are part of the comparison
     run.corr("reduction", case, impl, model)
     # ---- oracle: torch on every leaf over the batch dims named by the user, batch size = what torch does to the batch shape
     exp = None
@@ -998,7 +1006,16 @@ def run_reduction_case(ctx, name, batch, names, spelling, keep):
         elif not names_ok:
             run.oracle_fail("reduction", case, f"{len(r[1].names)} names for {len(r[1].batch_size)} batch dims", fp + ":names")
         else:
-            run.oracle_ok("reduction")
+            # the nested tensordicts of the result carry the root's dim names (their batch dims are the root's)
+            from tensordict import TensorDictBase
+            root_names = list(r[1].names) if r[1]._has_names() else [None] * len(r[1].batch_size)
+            bad_nested = [k for k, v in r[1].items(True, is_leaf=lambda cls: False) if isinstance(v, TensorDictBase)
+                          and (list(v.names) if v._has_names() else [None] * len(v.batch_size))[:len(root_names)] != root_names]
+            if bad_nested:
+                run.oracle_fail("reduction", case, f"nested result {bad_nested[0]} has dim names {r[1].get(bad_nested[0]).names} under a root named {root_names}",
+                                fp + ":nested-names")
+            else:
+                run.oracle_ok("reduction")
     return case, impl, model
 
 
@@ -1897,6 +1914,10 @@ def stream_binary_containers(ctx: Ctx):
                     if op["name"] in ("maximum", "minimum") and om == "scalar":
                         om = "t0"
                     run_binary_case(ctx, op["inplace"], ref, op["self_kind"], op["other_kind"], "inplace", om, "none", "binary_containers", container=kind)
+        # lerp / addcmul / addcdiv and their in-place forms
+        for name in TERN:
+            for _ in range(ctx.n(10, 60)):
+                run_ternary_case(ctx, name, rng.random() < 0.4, container=kind)
         # the comparison operators (`_td.py`) with the same containers as self
         for name in L.COMPARE + L.BITWISE_CMP_STYLE:
             for _ in range(ctx.n(8, 60)):
